@@ -44,6 +44,9 @@ SymToks(s, p) == CASE s \in {"bgR", "bgP", "bgU"} -> <<T("bg", p, FALSE), T("{",
 \* ---- arg_buffer, expand_arguments, generate_replacements as functions of the buffer --------
 RECURSIVE Skip(_)
 Skip(b) == IF b # <<>> /\ IsSkip(Head(b)) THEN Skip(Tail(b)) ELSE b
+\* behind a macro name: blanks and comments, but not an action token - it marks the end of a substituted argument (fix 05f099b)
+RECURSIVE SkipM(_)
+SkipM(b) == IF b # <<>> /\ Head(b).k \in {"sp", "cm", "void"} THEN SkipM(Tail(b)) ELSE b
 RECURSIVE Collect(_, _, _, _)
 Collect(b, lev, end, acc) ==
    IF b = <<>> THEN [found |-> FALSE, arg |-> acc, rest |-> <<>>]
@@ -116,7 +119,7 @@ hd == Head(buf)
 \* MacroToken: expand_macro, result pushed back
 DoMacro == /\ Running /\ hd.k \in Known \cup {"un"} /\ nexp < MaxExp
            /\ nexp' = nexp + 1
-           /\ LET rest == Skip(Tail(buf)) IN
+           /\ LET rest == SkipM(Tail(buf)) IN
               IF hd.k = "un" THEN
                  /\ unknowns' = IF InSeq("un", unknowns) THEN unknowns ELSE Append(unknowns, "un")
                  /\ buf' = <<Act(hd.p)>> \o rest /\ UNCHANGED spans
